@@ -690,6 +690,9 @@ def run(rep: core.Report):
     _r04l(rep)
     _r04m(rep)
     _r04n(rep)
+    from rules import shared_sibperm
+
+    shared_sibperm.run_reorder(rep, "R04o", [CELLS, "phonopy/structure/atoms.py"], 1)
     from rules import shared_bcast
 
     shared_bcast.run(rep, "R04h", sorted(core.python_files("phonopy/structure")))
@@ -699,6 +702,7 @@ def selftest():
     V = []
     b = lambda name, file, old, new, rule, expect="", **kw: V.append(dict(name=name, kind="break", file=file, old=old, new=new, rule=rule, expect=expect, **kw))
     n = lambda name, file, old, new, **kw: V.append(dict(name=name, kind="neutral", file=file, old=old, new=new, **kw))
+    V.append(dict(name="atom map of the trimmed cell reordered through another index array", kind="break", rule="R04o", expect="_run", edits=[dict(file=CELLS, old="            extracted_atoms = extracted_atoms[ids]", new="            slots = np.argsort(ids)\n            extracted_atoms = extracted_atoms[slots]")]))
     b("tolerance handed to the trimming helper in the position of its overlap flag", CELLS, "            supercell,\n            symprec=self._symprec,\n            positions_to_reorder=positions_to_reorder,", "            supercell,\n            self._symprec,\n            positions_to_reorder=positions_to_reorder,", "R04y.argname", "_create_primitive_cell")
     n("overlap flag and tolerance both positional", CELLS, "            supercell,\n            symprec=self._symprec,\n            positions_to_reorder=positions_to_reorder,", "            supercell,\n            True,\n            self._symprec,\n            positions_to_reorder=positions_to_reorder,")
     b("guessed primitive matrix assembled from the transposes", CELLS, "    return np.array(np.dot(np.linalg.inv(tmat), pmat), dtype=\"double\", order=\"C\")", "    return np.array(np.dot(pmat.T, np.linalg.inv(tmat)).T, dtype=\"double\", order=\"C\")", "R04n", "guess_primitive_matrix")
